@@ -24,6 +24,9 @@ def check(chk: Check) -> None:
     R2 = chk.rule('C04.R2', 'unbounded Python ints are re-rounded before they escape: no numeric builtin returns '
                             'Decimal(<Python int of unbounded size>) (exact constructor) without a context-rounding step', floor=4)
     R3 = chk.rule('C04.R3', 'the decimal context is never touched anywhere in the package', floor=1)
+    R4 = chk.rule('C04.R4', 'numbers are not repeat counts: no number class of the package defines __index__ (str * n and list * n accept '
+                            'whatever has one) or re-defines * / ** / <<', floor=1)
+    chk.decided += ['the package\'s number class cannot be used as a sequence repeat count and keeps Decimal\'s * and ** (R4)']
     chk.decided += ['clause 1: every multiplicative site computes Decimal x Decimal (context-rounded or ArithmeticError) and * refuses non-numbers (R1)',
                     'clause 2, conversion builtins: which of them can return a number wider than its argument (R2)',
                     'default context untouched (R3)']
@@ -126,6 +129,28 @@ def check(chk: Check) -> None:
             chk.ok(R2, ent.label, where, '; '.join(v[1] for v in rets.values()) or 'returns its argument / a Python builtin result')
 
     N.context_untouched(chk, R3)
+
+    # --------------------------------------------------------------------- R4
+    # what str * n and list * n accept is anything with __index__; decimal.Decimal deliberately has none, which is why
+    # "ab" * Decimal(3) is a TypeError.  The package's own number class must not grow one, nor re-define the operators whose
+    # context rounding the other rules rely on.
+    n4 = 0
+    for cq, ci in sorted(F.classes.items()):
+        if '.ply' in ci.module.name:
+            continue
+        bases = F.ext_bases(cq)
+        if not any(b in ('decimal.Decimal', 'int', 'float', 'fractions.Fraction') for b in bases):
+            continue
+        n4 += 1
+        bad4 = sorted(m for m in ci.methods if m in ('__index__', '__mul__', '__rmul__', '__imul__', '__pow__', '__rpow__', '__ipow__',
+                                                     '__lshift__', '__rlshift__'))
+        chk.require(not bad4, R4, '%s (number class)' % cq, '%s:%d' % (ci.module.rel, ci.node.lineno),
+                    'defines %s: %s' % (', '.join(bad4), 'with __index__ every literal is accepted as a repeat count by str * n and list * n '
+                                        '(`s *= 3` repeats the string)' if '__index__' in bad4 else 'multiplication / exponentiation no longer '
+                                        'is the context-rounded Decimal operation') if bad4 else
+                    'inherits *, ** from %s and has no __index__' % ', '.join(bases))
+    if n4 == 0:
+        chk.ok(R4, 'number classes', 'smartquery/custom_types.py', 'the package defines no subclass of a numeric type')
 
 
 def _contains(t, sub) -> bool:
